@@ -19,8 +19,8 @@ fn hexval(c: u8) -> Option<u8> {
 }
 
 /// Parses a whole file.  Every line must be a well-formed record (`:LLAAAATT<data>CC`, hex digits
-/// only, length and checksum verified, type 00..05); exactly one EOF record, and only blank lines
-/// after it; no byte may be written twice.
+/// only, length and checksum verified, type 00..05); exactly one EOF record, nothing
+/// after it, no empty lines; no byte may be written twice.
 pub fn parse(text: &[u8]) -> Result<Decoded, String> {
     let mut bytes: BTreeMap<u64, u8> = BTreeMap::new();
     let mut base: u64 = 0;
@@ -29,10 +29,15 @@ pub fn parse(text: &[u8]) -> Result<Decoded, String> {
     let mut records = 0;
     let mut ext_records = 0;
     let s = std::str::from_utf8(text).map_err(|_| "file is not ASCII/UTF-8".to_string())?;
-    for (ln, raw) in s.split('\n').enumerate() {
+    let pieces: Vec<&str> = s.split('\n').collect();
+    for (ln, raw) in pieces.iter().enumerate() {
         let line = raw.strip_suffix('\r').unwrap_or(raw);
         if line.is_empty() {
-            continue;
+            // what follows the last line end is not a line; an empty line anywhere else is not a record
+            if ln + 1 == pieces.len() && raw.is_empty() {
+                continue;
+            }
+            return Err(format!("line {}: empty line (the file must consist of records only)", ln + 1));
         }
         if eof_seen {
             return Err(format!("line {}: content after the end-of-file record", ln + 1));
